@@ -99,8 +99,8 @@ def run_c02(sr, rep, tier):
     return [out, run_shot(sr, rep, tier)]
 
 
-SHOT_ASSUME = ("decay0_bb against the translated subroutine BB, one initialisation (concrete, real) + one generation with symbolic deviates per path; legacy modes 1, 2, 17, 10, 9, 11, 12, 20, 4, 19 (quick) "
-               "plus 3, 7, 18 (thorough); Q = 1.2 MeV (2.4 for the EC/beta+ modes), Z = +-44, default energy window, K = 3 evaluations per branch site (rejection loops followed 3 rounds; cut paths counted); "
+SHOT_ASSUME = ("decay0_bb against the translated subroutine BB, one initialisation (concrete, real) + one generation with symbolic deviates per path; legacy modes 1, 2, 17, 10, 9, 11, 12, 20 (quick) "
+               "plus 4, 19, 3, 7, 18 (thorough, each with a watchdog and two re-runs: z3 sometimes never returns from a non-linear query; a mode lost three times is listed as undecided); Q = 1.2 MeV (2.4 for the EC/beta+ modes), Z = +-44, default energy window, K = 3 evaluations per branch site (rejection loops followed 3 rounds; cut paths counted); "
                "symbolic table indices: every feasible integer value is explored as a decision (up to K per site); the Fermi function, the GSL quadrature and the golden-section search are the same stand-in on "
                "both sides (analytic / 2-point rule / shared fresh symbols), toallevents is not compared; modes 5, 6, 8, 13-16 fill a per-shot table of ~1200 symbolic entries and are outside this layer "
                "(their density functions are in the formula layer, their history independence in C07); a disagreement is a violation only when the native replay (replay/replay_bb.cc: real sources vs natively "
@@ -114,10 +114,28 @@ def run_shot(sr, rep, tier):
     wd = os.path.join(sr.wd, "bbshot")
     exe = build_shot(wd)
     rexe = build_replay_bb(wd)
-    modes = [1, 2, 17, 10, 9, 11, 12, 20, 4, 19] + ([3, 7, 18] if tier == "thorough" else [])
-    res = vlib.run_jsonl([[exe, "bb", str(m), "3", "product"] for m in modes], timeout=600 if tier == "quick" else 3000)
+    # z3 4.8.12 sometimes does not return from a non-linear query (no time-out can interrupt it; measured on modes 4 and 19: one
+    # run in three under load; never in 30 runs of modes 1, 2, 17, 10, 20).  Policy: every mode gets a watchdog and is re-run when the
+    # solver does not come back; the firm set must be decided (else the check is broken), the optional set (thorough) is reported
+    # as undecided when all attempts are lost - never as success.
+    firm = [1, 2, 17, 10, 9, 11, 12, 20]
+    optional = [4, 19, 3, 7, 18] if tier == "thorough" else []
+    modes = firm + optional
+    res = [None] * len(modes)
+    todo = list(range(len(modes)))
+    for attempt in range(3):
+        if not todo:
+            break
+        rr = vlib.run_jsonl([[exe, "bb", str(modes[i]), "3", "product"] for i in todo], timeout=300 if tier == "quick" else 900)
+        nxt = []
+        for i, r in zip(todo, rr):
+            res[i] = r
+            if r["timed_out"]:
+                nxt.append(i)
+        todo = nxt
+    undecided = [modes[i] for i in todo if modes[i] in optional]
     out = {"layer": "decay0_bb generation stage against subroutine BB", "modes": modes, "runs": 0, "paths": 0, "paths_agree": 0, "paths_cut_bound": 0, "branch_unknown": 0, "disagreements": 0,
-           "confirmed": 0, "unconfirmed": 0, "incomplete": [], "solver_seconds": 0.0, "assumption": SHOT_ASSUME}
+           "confirmed": 0, "unconfirmed": 0, "incomplete": [], "undecided_modes_solver_did_not_return": undecided, "solver_seconds": 0.0, "assumption": SHOT_ASSUME}
 
     def native(mode, devs, tgx, tgf):
         try:
@@ -128,6 +146,8 @@ def run_shot(sr, rep, tier):
     for m, r in zip(modes, res):
         s = [x for x in r["records"] if x.get("type") == "summary"]
         if not s:
+            if m in undecided:
+                continue
             out["incomplete"].append({"mode": m, "timed_out": r["timed_out"], "stderr": r["stderr"][-200:]})
             continue
         out["runs"] += 1
@@ -167,3 +187,69 @@ def run_shot(sr, rep, tier):
         print("check C02: bbshot incomplete runs %s" % out["incomplete"][:2])
         out["broken"] = True
     return out
+
+
+BUDGET_ASSUME = ("primary-process energy budget of decay0_bb (real bb.cc, stand-ins of harness/bbshot_units.cc, Q = 1.2 / 2.4 MeV, ground-state level): per symbolic path the energies handed to decay0_particle; "
+                 "capture modes 9, 10, 11, 12: e+ / gamma with exactly (mode 10: at most) the available energy Q - E(level) - EK - 2 m_e resp. Q - E(level) - 2 EK and X-rays of EK; K = 3; NOT decided: the two-electron "
+                 "modes (E1 + E2 = Q - E(level) from the event's momenta needs sqrt/trigonometric identities under products: z3 unknown), the 2-neutrino / Majoron modes (sum <= Q, energy window) and the "
+                 "toallevents normalisation (per-shot tables, GSL quadratures); for the modes of C02's generation-stage product the port's event equals the reference's")
+
+
+def build_budget(wd):
+    os.makedirs(wd, exist_ok=True)
+    gen_include_dir(wd)
+    extra = ["-DHX_WITH_REF"]
+    run([sys.executable, os.path.join(F2X, "f2x.py"), "--src", FOR, "--units", "bb-group,particle", "--out", os.path.join(wd, "ref_gen.c"), "--header", os.path.join(wd, "ref_gen.h")])
+    jobs = [build_engine(wd)]
+    for h in ["bb", "fe1_mods", "fe2_mods", "fe12_mods", "dgmlt1", "dgmlt2", "dshelp1", "dshelp2", "particle", "particle_utils", "utils"]:
+        jobs.append(repo_unit_job(wd, h, "-O1", extra))
+    jobs.append(repo_unit_job(wd, "event", "-O1", extra + ["-Ddecay0_particle=decay0_particle_real"]))
+    for h in ["hx", "bbshot_units", "bbbudget_main"]:
+        jobs.append((os.path.join(HARNESS, h + ".cc"), os.path.join(wd, "obj", h + ".o"), symx_flags(wd, "-O1", extra)))
+    jobs.append((os.path.join(wd, "ref_gen.c"), os.path.join(wd, "obj", "ref_gen.o"), ["-x", "c++"] + symx_flags(wd, "-O0", extra)))
+    return link(compile_objs(jobs), os.path.join(wd, "bbbudget_main"))
+
+
+def run_c03(sr, rep, tier):
+    import json
+    exe = build_budget(os.path.join(sr.wd, "bbbudget"))
+    firm = [9, 10, 11, 12]
+    optional = []
+    modes = firm + optional
+    res = [None] * len(modes)
+    todo = list(range(len(modes)))
+    for attempt in range(3):
+        if not todo:
+            break
+        rr = vlib.run_jsonl([[exe, str(modes[i]), "3"] for i in todo], timeout=300 if tier == "quick" else 900)
+        nxt = []
+        for i, r in zip(todo, rr):
+            res[i] = r
+            if r["timed_out"]:
+                nxt.append(i)
+        todo = nxt
+    undecided = [modes[i] for i in todo if modes[i] in optional]
+    out = {"layer": "decay0_bb primary-process energy budget", "modes": modes, "runs": 0, "paths": 0, "obligations": 0, "refuted": 0, "unknown": 0, "incomplete": [],
+           "undecided_modes_solver_did_not_return": undecided, "solver_seconds": 0.0, "assumption": BUDGET_ASSUME}
+    for m, r in zip(modes, res):
+        s = [x for x in r["records"] if x.get("type") == "summary"]
+        if not s:
+            if m not in undecided:
+                out["incomplete"].append({"mode": m, "timed_out": r["timed_out"], "stderr": r["stderr"][-200:]})
+            continue
+        out["runs"] += 1
+        out["paths"] += s[0]["stats"]["paths"]
+        out["obligations"] += s[0]["obligations"]
+        out["unknown"] += s[0]["obl_unknown"]
+        out["solver_seconds"] += s[0]["stats"]["solver_seconds"]
+        for x in r["records"]:
+            if x.get("type") == "obligation" and x.get("verdict") == "refuted":
+                out["refuted"] += 1
+                key = "bbbudget:%s:%s" % (x["unit"], x["what"][:70])
+                f = os.path.join(sr.wd, "replay_bbbudget_mode%d.json" % m)
+                json.dump({"property": "C03", "key": key, "record": x, "how_to_replay": "generate mode %d events with the model's deviates and add up the kinetic energies" % m}, open(f, "w"), indent=1)
+                rep.violation(key, "%s model=%s" % (key, x["model"]), f)
+    if out["incomplete"]:
+        print("check C03: bbbudget incomplete runs %s" % out["incomplete"][:2])
+        out["broken"] = True
+    return [out]
